@@ -103,6 +103,11 @@ def run(tier, seed, jobs):
     plans.append({"cfg_ref": ("vf.props.c03", "cfg", [3]), "alphabet": core, "depth": 5 if tier == "quick" else 6, "label": "INBOX(3), core alphabet, deep"})
     plans.append({"cfg_ref": ("vf.props.c03", "cfg_tree", []), "alphabet": alphabet_tree(tier), "depth": 3 if tier == "quick" else 4,
                   "label": "a(2) with child a/b(2): RENAME of parent / child while the child is selected, fetched, appended to"})
+    # the folder is packed (files renumbered) and the mailbox is then loaded from the database with nothing arriving in between
+    packload = [{"s": "A", "op": "del", "set": "1"}, {"s": "A", "op": "del", "set": "2"}, {"s": "env", "op": "poll", "dt": 21.0}, {"s": "env", "op": "restart"},
+                {"s": "B", "op": "fetch", "set": "1:*", "items": SUBJ, "uid": True}, {"s": "A", "op": "append", "m": "INBOX"}]
+    plans.append({"cfg_ref": ("vf.props.c03", "cfg", [4]), "alphabet": packload, "depth": 4 if tier == "quick" else 6,
+                  "label": "INBOX(4): expunge, pack, restart, look (narrow alphabet, deep enough for pack-then-restart with no arrival between)"})
     res = run_h(PROP, RULES, plans, ("C03",), jobs, seed,
                 ["sessions A (mutator) and B (prober) both selected on INBOX(3 or 4); pack threshold lowered to 2 messages",
                  "expunge subsets are the 6 listed set shapes per state (composed over the history they reach every subset)",
